@@ -74,6 +74,41 @@ def confirm(src, prop, sid, needs):
     return 0
 
 
+def run_alt_one(sid, tier):
+    """development aid: the same as run() for one change, but against a scratch worktree (VERIF_REPO), so that /repo is left alone
+    and several changes can be examined at once; the recorded results come from run() on /repo itself"""
+    d = os.path.join(SEED, sid)
+    meta = json.load(open(os.path.join(d, "meta.json")))
+    wt = "/tmp/seedalt-%s" % sid
+    sh(["git", "-C", "/repo", "worktree", "remove", "--force", wt])
+    r = sh(["git", "-C", "/repo", "worktree", "add", "-q", "--detach", wt, "HEAD"])
+    if r.returncode != 0:
+        return "%s worktree: %s" % (sid, r.stderr[:200])
+    out = []
+    try:
+        r = sh(["git", "apply", os.path.join(d, "patch.diff")], cwd=wt)
+        if r.returncode != 0:
+            return "%s patch does not apply: %s" % (sid, r.stderr[:200])
+        for p in [meta["property"]] + meta.get("also", []):
+            t0 = time.time()
+            c = sh(["python3", os.path.join(ROOT, "tools", "verif.py"), "check", p, "--tier", tier], cwd=ROOT, env=dict(os.environ, VERIF_REPO=wt, VERIF_NO_EVIDENCE="1"))
+            viol = [l for l in c.stdout.splitlines() if l.startswith("VIOLATION")]
+            clauses = [l for l in c.stdout.splitlines() if l.startswith("violated clause")][:2]
+            out.append("%-28s %s %s %.0fs %s" % (sid, p, "DETECTED" if viol else "missed (exit %d)" % c.returncode, time.time() - t0,
+                                                  " | ".join(x[16:120] for x in clauses)))
+    finally:
+        sh(["git", "-C", "/repo", "worktree", "remove", "--force", wt])
+    return "\n".join(out)
+
+
+def run_alt(ids, tier, par=4):
+    from concurrent.futures import ThreadPoolExecutor
+    ids = ids or sorted(os.path.basename(p) for p in glob.glob(os.path.join(SEED, "C*")) if os.path.isdir(p))
+    with ThreadPoolExecutor(max_workers=par) as ex:
+        for res in ex.map(lambda s: run_alt_one(s, tier), ids):
+            print(res, flush=True)
+
+
 def run(ids, tier):
     ids = ids or sorted(os.path.basename(p) for p in glob.glob(os.path.join(SEED, "C*")) if os.path.isdir(p))
     for sid in ids:
@@ -112,4 +147,7 @@ if __name__ == "__main__":
         k = args.index("--tier")
         tier = args[k + 1]
         del args[k:k + 2]
-    run(args, tier)
+    if sys.argv[1] == "alt":
+        run_alt(args, tier)
+    else:
+        run(args, tier)
